@@ -16,15 +16,34 @@ namespace Pasfmt
 
 theorem nlc_idem (n : Nat) : nlc (nlc n) = nlc n := by unfold nlc; omega
 
+/-- equal counters, up to the spaces of a free token -/
+structure FmtEq (fr : Prop) (f f' : FmtData) : Prop where
+  ign : f.ignored = f'.ignored
+  nl : f.nl = f'.nl
+  ind : f.ind = f'.ind
+  cont : f.cont = f'.cont
+  sp : fr ∨ f.sp = f'.sp
+
 /-- same token up to what the layout of the input decides: leading whitespace, indentation counters, and the
     line-break counter within its class -/
-structure LR (t t' : FTok) : Prop where
+structure LR (fr : Prop) (t t' : FTok) : Prop where
   kind : t.tok.kind = t'.tok.kind
   content : t.tok.content = t'.tok.content
   ign : t.fmt.ignored = t'.fmt.ignored
-  sp : t.fmt.sp = t'.fmt.sp
+  /-- `fr` ("free"): the token follows a line comment that shares its line with code and can keep its spacing -
+      `TokenSpacing` leaves it the input's value, which the wrapper never reads and zeroes in the end -/
+  sp : fr ∨ t.fmt.sp = t'.fmt.sp
   nl : nlc t.fmt.nl = nlc t'.fmt.nl
-  ignEq : t.fmt.ignored = true → t = t'
+  ignEq : t.fmt.ignored = true → t.tok = t'.tok ∧ FmtEq fr t.fmt t'.fmt
+
+theorem FmtEq.refl (fr : Prop) (f : FmtData) : FmtEq fr f f := ⟨rfl, rfl, rfl, rfl, Or.inr rfl⟩
+
+theorem FmtEq.eq {f f' : FmtData} (h : FmtEq False f f') : f = f' := by
+  cases f; cases f'
+  obtain ⟨a, b, c, d, e⟩ := h
+  rcases e with e | e
+  · exact absurd e id
+  · simp_all
 
 theorem All2.length_eq {α β : Type} {R : α → β → Prop} {as : List α} {bs : List β} (h : All2 R as bs) :
     as.length = bs.length := by
@@ -32,18 +51,18 @@ theorem All2.length_eq {α β : Type} {R : α → β → Prop} {as : List α} {b
   | nil => rfl
   | cons _ _ ih => simp [ih]
 
-theorem LR.refl (t : FTok) : LR t t := ⟨rfl, rfl, rfl, rfl, rfl, fun _ => rfl⟩
+theorem LR.refl (fr : Prop) (t : FTok) : LR fr t t := ⟨rfl, rfl, rfl, Or.inr rfl, rfl, fun _ => ⟨rfl, FmtEq.refl _ _⟩⟩
 
 /-- related states: `LR` everywhere, equal counters on `W` -/
-def RelW (W : Nat → Prop) (ft ft' : FT) : Prop :=
+def RelW (F W : Nat → Prop) (ft ft' : FT) : Prop :=
   ft.length = ft'.length ∧
-  ∀ j t t', ft[j]? = some t → ft'[j]? = some t' → LR t t' ∧ (W j → t.fmt = t'.fmt)
+  ∀ j t t', ft[j]? = some t → ft'[j]? = some t' → LR (F j) t t' ∧ (W j → FmtEq (F j) t.fmt t'.fmt)
 
-theorem RelW.mono {W W' : Nat → Prop} {ft ft' : FT} (h : RelW W ft ft') (hw : ∀ j, W' j → W j) : RelW W' ft ft' :=
+theorem RelW.mono {F W W' : Nat → Prop} {ft ft' : FT} (h : RelW F W ft ft') (hw : ∀ j, W' j → W j) : RelW F W' ft ft' :=
   ⟨h.1, fun j t t' a b => ⟨(h.2 j t t' a b).1, fun w => (h.2 j t t' a b).2 (hw j w)⟩⟩
 
-theorem RelW.get {W : Nat → Prop} {ft ft' : FT} (h : RelW W ft ft') {j : Nat} {t : FTok} (ht : ft[j]? = some t) :
-    ∃ t', ft'[j]? = some t' ∧ LR t t' ∧ (W j → t.fmt = t'.fmt) := by
+theorem RelW.get {F W : Nat → Prop} {ft ft' : FT} (h : RelW F W ft ft') {j : Nat} {t : FTok} (ht : ft[j]? = some t) :
+    ∃ t', ft'[j]? = some t' ∧ LR (F j) t t' ∧ (W j → FmtEq (F j) t.fmt t'.fmt) := by
   have hj : j < ft.length := by
     rcases Nat.lt_or_ge j ft.length with h1 | h1
     · exact h1
@@ -51,14 +70,14 @@ theorem RelW.get {W : Nat → Prop} {ft ft' : FT} (h : RelW W ft ft') {j : Nat} 
   have hj' : j < ft'.length := h.1 ▸ hj
   refine ⟨ft'[j], List.getElem?_eq_getElem hj', h.2 j t _ ht (List.getElem?_eq_getElem hj')⟩
 
-theorem RelW.get_none {W : Nat → Prop} {ft ft' : FT} (h : RelW W ft ft') {j : Nat} (ht : ft[j]? = none) :
+theorem RelW.get_none {F W : Nat → Prop} {ft ft' : FT} (h : RelW F W ft ft') {j : Nat} (ht : ft[j]? = none) :
     ft'[j]? = none := by
   rw [List.getElem?_eq_none_iff] at ht ⊢
   rw [← h.1]; exact ht
 
 /-! ### the search reads the view only -/
 
-theorem RelW.sview {W : Nat → Prop} {ft ft' : FT} (h : RelW W ft ft') : ft.map FTok.sview = ft'.map FTok.sview := by
+theorem RelW.sview {F W : Nat → Prop} {ft ft' : FT} (h : RelW F W ft ft') : ft.map FTok.sview = ft'.map FTok.sview := by
   apply List.ext_getElem?
   intro j
   simp only [List.getElem?_map]
@@ -69,12 +88,12 @@ theorem RelW.sview {W : Nat → Prop} {ft ft' : FT} (h : RelW W ft ft') : ft.map
     rw [ht']
     simp only [Option.map_some, FTok.sview, lr.kind, lr.content]
 
-theorem searchSolve_congr {W : Nat → Prop} {ft ft' : FT} (h : RelW W ft ft') (st : SearchState) (i : Nat) :
+theorem searchSolve_congr {F W : Nat → Prop} {ft ft' : FT} (h : RelW F W ft ft') (st : SearchState) (i : Nat) :
     searchSolve st ft i = searchSolve st ft' i := by
   unfold searchSolve; rw [h.sview]
 
-theorem RelW.map_eq {W : Nat → Prop} {ft ft' : FT} (h : RelW W ft ft') {β : Type} (f : FTok → β)
-    (hf : ∀ t t', LR t t' → f t = f t') : ft.map f = ft'.map f := by
+theorem RelW.map_eq {F W : Nat → Prop} {ft ft' : FT} (h : RelW F W ft ft') {β : Type} (f : FTok → β)
+    (hf : ∀ fr t t', LR fr t t' → f t = f t') : ft.map f = ft'.map f := by
   apply List.ext_getElem?
   intro j
   simp only [List.getElem?_map]
@@ -83,48 +102,85 @@ theorem RelW.map_eq {W : Nat → Prop} {ft ft' : FT} (h : RelW W ft ft') {β : T
   | some t =>
     obtain ⟨t', ht', lr, _⟩ := h.get hj
     rw [ht']
-    simp only [Option.map_some, hf t t' lr]
+    simp only [Option.map_some, hf _ t t' lr]
 
-theorem searchInit_congr {W : Nat → Prop} {ft ft' : FT} (h : RelW W ft ft') (cfg : Config) (lines : List Line) :
-    searchInit cfg lines ft = searchInit cfg lines ft' := by
+/-- `F` marks exactly the positions the masked `token_lengths` do not read -/
+def FreeOk (F : Nat → Prop) (ft : FT) : Prop :=
+  ∀ j t, ft[j]? = some t → F j →
+    j ≥ 1 ∧ (ft[j - 1]?).map (·.tok.kind) = some (.tComment .cInlineLine) ∧ keepsCur t.tok.kind = true
+
+theorem tokenLengthsGo_congr : ∀ (prev : Option Kind) (k : Nat) (F : Nat → Prop) (ft ft' : FT), ft.length = ft'.length →
+    (∀ (j : Nat) (t t' : FTok), ft[j]? = some t → ft'[j]? = some t' → LR (F (k + j)) t t') →
+    (∀ (t : FTok), ft[0]? = some t → F k → prev = some (.tComment .cInlineLine) ∧ keepsCur t.tok.kind = true) →
+    (∀ (j : Nat) (t : FTok), ft[j + 1]? = some t → F (k + j + 1) →
+      (ft[j]?).map (·.tok.kind) = some (.tComment .cInlineLine) ∧ keepsCur t.tok.kind = true) →
+    tokenLengthsGo prev ft = tokenLengthsGo prev ft'
+  | _, _, _, [], [], _, _, _, _ => rfl
+  | _, _, _, [], _ :: _, h, _, _, _ => by simp at h
+  | _, _, _, _ :: _, [], h, _, _, _ => by simp at h
+  | prev, k, F, t :: r, t' :: r', hl, h, h0, hs => by
+    have lr := h 0 t t' rfl rfl
+    unfold tokenLengthsGo
+    rw [← lr.kind, ← lr.content]
+    have hsp : (if (prev == some (.tComment .cInlineLine) && keepsCur t.tok.kind) = true then 0 else t.fmt.sp) =
+        (if (prev == some (.tComment .cInlineLine) && keepsCur t.tok.kind) = true then 0 else t'.fmt.sp) := by
+      rcases lr.sp with hf | he
+      · obtain ⟨hp, hk⟩ := h0 t rfl hf
+        simp [hp, hk]
+      · rw [he]
+    simp only [hsp]
+    congr 1
+    apply tokenLengthsGo_congr (some t.tok.kind) (k + 1) F r r' (by simpa using hl)
+    · intro j a b ha hb
+      have := h (j + 1) a b (by simpa using ha) (by simpa using hb)
+      have e : k + (j + 1) = k + 1 + j := by omega
+      rw [e] at this; exact this
+    · intro a ha hF
+      have := hs 0 a (by simpa using ha) (by simpa using hF)
+      simpa using this
+    · intro j a ha hF
+      have e : k + 1 + j + 1 = k + (j + 1) + 1 := by omega
+      have := hs (j + 1) a (by simpa using ha) (by rw [← e]; exact hF)
+      simpa using this
+
+theorem searchInit_congr {F W : Nat → Prop} {ft ft' : FT} (h : RelW F W ft ft') (hF : FreeOk F ft) (cfg : Config)
+    (lines : List Line) : searchInit cfg lines ft = searchInit cfg lines ft' := by
   unfold searchInit
-  rw [h.map_eq (fun t => t.tok.kind) (fun _ _ lr => lr.kind),
-    h.map_eq (fun t => ({ spacesBefore := t.fmt.sp, content := t.tok.content.length } : TokenLength))
-      (fun _ _ lr => by rw [lr.sp, lr.content])]
+  rw [h.map_eq (fun t => t.tok.kind) (fun _ _ _ lr => lr.kind),
+    tokenLengthsGo_congr none 0 F ft ft' h.1 (fun j t t' a b => by simpa using (h.2 j t t' a b).1)
+      (fun t ht hf => by
+        have := hF 0 t ht hf
+        omega)
+      (fun j t ht hf => by
+        have := hF (j + 1) t ht (by simpa using hf)
+        simpa using this.2)]
 
 /-! ### applying a solution -/
 
-theorem applyDec_LR {t t' : FTok} (lr : LR t t') (first : Bool) (ind cont : Nat) (d : Dec) :
-    LR { t with fmt := applyDec t.fmt first ind cont d } { t' with fmt := applyDec t'.fmt first ind cont d } ∧
-    applyDec t.fmt first ind cont d = applyDec t'.fmt first ind cont d := by
+theorem applyDec_LR {fr : Prop} {t t' : FTok} (lr : LR fr t t') (first : Bool) (ind cont : Nat) (d : Dec) :
+    LR fr { t with fmt := applyDec t.fmt first ind cont d } { t' with fmt := applyDec t'.fmt first ind cont d } ∧
+    FmtEq fr (applyDec t.fmt first ind cont d) (applyDec t'.fmt first ind cont d) := by
   have hn := lr.nl
-  have hfmt : applyDec t.fmt first ind cont d = applyDec t'.fmt first ind cont d := by
+  have hfmt : FmtEq fr (applyDec t.fmt first ind cont d) (applyDec t'.fmt first ind cont d) := by
     cases d with
     | brk c =>
       unfold applyDec
-      have e1 : (if first = true then min (max t.fmt.nl 1) 2 else 1) = (if first = true then min (max t'.fmt.nl 1) 2 else 1) := by
-        split
-        · exact hn
-        · rfl
-      cases hf : t.fmt; cases hf' : t'.fmt
-      have := lr.ign; have := lr.sp
-      simp_all
+      refine ⟨lr.ign, ?_, rfl, rfl, lr.sp⟩
+      show (if first = true then min (max t.fmt.nl 1) 2 else 1) = (if first = true then min (max t'.fmt.nl 1) 2 else 1)
+      split
+      · exact hn
+      · rfl
     | cont =>
       unfold applyDec
-      cases hf : t.fmt; cases hf' : t'.fmt
-      have := lr.ign; have := lr.sp
-      simp_all
-  refine ⟨⟨lr.kind, lr.content, congrArg FmtData.ignored hfmt, congrArg FmtData.sp hfmt,
-    congrArg (fun f => nlc f.nl) hfmt, ?_⟩, hfmt⟩
-  · intro hi
-    have hi0 : t.fmt.ignored = true := by rw [applyDec_ignored] at hi; exact hi
-    have := lr.ignEq hi0
-    subst this
-    rfl
+      exact ⟨lr.ign, rfl, rfl, rfl, lr.sp⟩
+  refine ⟨⟨lr.kind, lr.content, hfmt.ign, hfmt.sp, congrArg nlc hfmt.nl, ?_⟩, hfmt⟩
+  intro hi
+  have hi0 : t.fmt.ignored = true := by rw [applyDec_ignored] at hi; exact hi
+  exact ⟨(lr.ignEq hi0).1, hfmt⟩
 
-theorem setFmt_relW {W : Nat → Prop} {ft ft' ft1 : FT} {i : Nat} {first : Bool} {ind cont : Nat} {d : Dec}
-    (h : RelW W ft ft') (h1 : setFmt ft i (fun f => applyDec f first ind cont d) = some ft1) :
-    ∃ ft1', setFmt ft' i (fun f => applyDec f first ind cont d) = some ft1' ∧ RelW (fun j => W j ∨ j = i) ft1 ft1' := by
+theorem setFmt_relW {F W : Nat → Prop} {ft ft' ft1 : FT} {i : Nat} {first : Bool} {ind cont : Nat} {d : Dec}
+    (h : RelW F W ft ft') (h1 : setFmt ft i (fun f => applyDec f first ind cont d) = some ft1) :
+    ∃ ft1', setFmt ft' i (fun f => applyDec f first ind cont d) = some ft1' ∧ RelW F (fun j => W j ∨ j = i) ft1 ft1' := by
   unfold setFmt at h1
   split at h1
   · rename_i t ht
@@ -154,9 +210,9 @@ theorem setFmt_relW {W : Nat → Prop} {ft ft' ft1 : FT} {i : Nat} {first : Bool
   · simp at h1
 
 mutual
-theorem applySol_relW (lines : List Line) (W : Nat → Prop) (ft ft' ft1 : FT) (s : Sol) (li : Nat)
-    (h : RelW W ft ft') (h1 : applySol lines ft s li = some ft1) :
-    ∃ ft1', applySol lines ft' s li = some ft1' ∧ RelW (fun j => W j ∨ j ∈ solTokens lines s li) ft1 ft1' := by
+theorem applySol_relW (lines : List Line) (F W : Nat → Prop) (ft ft' ft1 : FT) (s : Sol) (li : Nat)
+    (h : RelW F W ft ft') (h1 : applySol lines ft s li = some ft1) :
+    ∃ ft1', applySol lines ft' s li = some ft1' ∧ RelW F (fun j => W j ∨ j ∈ solTokens lines s li) ft1 ft1' := by
   cases s with
   | mk ind cont decs =>
     unfold applySol at h1 ⊢
@@ -165,13 +221,13 @@ theorem applySol_relW (lines : List Line) (W : Nat → Prop) (ft ft' ft1 : FT) (
     · simp at h1
     · rename_i l hl
       simp only [hl]
-      exact applyDecs_relW lines ind cont l.tokens 0 W ft ft' ft1 decs h h1
+      exact applyDecs_relW lines ind cont l.tokens 0 F W ft ft' ft1 decs h h1
 
-theorem applyDecs_relW (lines : List Line) (ind cont : Nat) (toks : List Nat) (i : Nat) (W : Nat → Prop)
+theorem applyDecs_relW (lines : List Line) (ind cont : Nat) (toks : List Nat) (i : Nat) (F W : Nat → Prop)
     (ft ft' ft1 : FT) (decs : List (Dec × List (Nat × Sol)))
-    (h : RelW W ft ft') (h1 : applyDecs lines ind cont toks i ft decs = some ft1) :
+    (h : RelW F W ft ft') (h1 : applyDecs lines ind cont toks i ft decs = some ft1) :
     ∃ ft1', applyDecs lines ind cont toks i ft' decs = some ft1' ∧
-      RelW (fun j => W j ∨ j ∈ decsTokens lines toks i decs) ft1 ft1' := by
+      RelW F (fun j => W j ∨ j ∈ decsTokens lines toks i decs) ft1 ft1' := by
   cases decs with
   | nil =>
     unfold applyDecs at h1 ⊢
@@ -196,9 +252,9 @@ theorem applyDecs_relW (lines : List Line) (ind cont : Nat) (toks : List Nat) (i
         split at h1
         · simp at h1
         · rename_i ftb hb
-          obtain ⟨ftb', hb', rb⟩ := applyChildren_relW lines _ fta fta' ftb children ra hb
+          obtain ⟨ftb', hb', rb⟩ := applyChildren_relW lines F _ fta fta' ftb children ra hb
           simp only [hb']
-          obtain ⟨ftc', hc', rc⟩ := applyDecs_relW lines ind cont toks (i + 1) _ ftb ftb' ft1 rest rb h1
+          obtain ⟨ftc', hc', rc⟩ := applyDecs_relW lines ind cont toks (i + 1) F _ ftb ftb' ft1 rest rb h1
           refine ⟨ftc', hc', rc.mono ?_⟩
           intro j w
           rcases w with w | w
@@ -209,9 +265,9 @@ theorem applyDecs_relW (lines : List Line) (ind cont : Nat) (toks : List Nat) (i
             · exact Or.inl (Or.inr w)
             · exact Or.inr w
 
-theorem applyChildren_relW (lines : List Line) (W : Nat → Prop) (ft ft' ft1 : FT) (ks : List (Nat × Sol))
-    (h : RelW W ft ft') (h1 : applyChildren lines ft ks = some ft1) :
-    ∃ ft1', applyChildren lines ft' ks = some ft1' ∧ RelW (fun j => W j ∨ j ∈ childrenTokens lines ks) ft1 ft1' := by
+theorem applyChildren_relW (lines : List Line) (F W : Nat → Prop) (ft ft' ft1 : FT) (ks : List (Nat × Sol))
+    (h : RelW F W ft ft') (h1 : applyChildren lines ft ks = some ft1) :
+    ∃ ft1', applyChildren lines ft' ks = some ft1' ∧ RelW F (fun j => W j ∨ j ∈ childrenTokens lines ks) ft1 ft1' := by
   cases ks with
   | nil =>
     unfold applyChildren at h1 ⊢
@@ -227,9 +283,9 @@ theorem applyChildren_relW (lines : List Line) (W : Nat → Prop) (ft ft' ft1 : 
     split at h1
     · simp at h1
     · rename_i fta ha
-      obtain ⟨fta', ha', ra⟩ := applySol_relW lines W ft ft' fta s li h ha
+      obtain ⟨fta', ha', ra⟩ := applySol_relW lines F W ft ft' fta s li h ha
       simp only [ha']
-      obtain ⟨ftb', hb', rb⟩ := applyChildren_relW lines _ fta fta' ft1 rest ra h1
+      obtain ⟨ftb', hb', rb⟩ := applyChildren_relW lines F _ fta fta' ft1 rest ra h1
       refine ⟨ftb', hb', rb.mono ?_⟩
       intro j w
       rcases w with w | w
@@ -242,12 +298,12 @@ end
 
 /-- applying the solutions the search finds for a list of lines: related states get the same solutions, stay
     related, and the tokens of the applied solutions become written -/
-theorem applyLinesS_relW (phase : Nat) (lines : List Line) (is : List Nat) (st st1 : SearchState) (W : Nat → Prop)
+theorem applyLinesS_relW (phase : Nat) (lines : List Line) (is : List Nat) (st st1 : SearchState) (F W : Nat → Prop)
     (ft ft' ft1 : FT) (acc sols : List (Nat × Nat × Sol))
-    (h : RelW W ft ft') (h1 : applyLinesS phase lines is st ft acc = some (ft1, st1, sols)) :
+    (h : RelW F W ft ft') (h1 : applyLinesS phase lines is st ft acc = some (ft1, st1, sols)) :
     ∃ ft1' news, applyLinesS phase lines is st ft' acc = some (ft1', st1, sols) ∧ sols = acc ++ news ∧
       (∀ x ∈ news, x.1 = phase) ∧
-      RelW (fun j => W j ∨ ∃ x ∈ news, j ∈ solTokens lines x.2.2 x.2.1) ft1 ft1' := by
+      RelW F (fun j => W j ∨ ∃ x ∈ news, j ∈ solTokens lines x.2.2 x.2.1) ft1 ft1' := by
   induction is generalizing st W ft ft' acc with
   | nil =>
     unfold applyLinesS at h1 ⊢
@@ -267,7 +323,7 @@ theorem applyLinesS_relW (phase : Nat) (lines : List Line) (is : List Nat) (st s
       split at h1
       · simp at h1
       · rename_i fta ha
-        obtain ⟨fta', ha', ra⟩ := applySol_relW lines W ft ft' fta s i h ha
+        obtain ⟨fta', ha', ra⟩ := applySol_relW lines F W ft ft' fta s i h ha
         simp only [ha']
         obtain ⟨ftb', news, hb', hsols, hph, rb⟩ := ih st' _ fta fta' (acc ++ [(phase, i, s)]) ra h1
         refine ⟨ftb', (phase, i, s) :: news, hb', by rw [hsols]; simp, ?_, rb.mono ?_⟩
@@ -285,22 +341,22 @@ theorem applyLinesS_relW (phase : Nat) (lines : List Line) (is : List Nat) (st s
 /-! ### once everything is written: the rest of the stage -/
 
 /-- everything written -/
-abbrev RelT (ft ft' : FT) : Prop := RelW (fun _ => True) ft ft'
+abbrev RelT (F : Nat → Prop) (ft ft' : FT) : Prop := RelW F (fun _ => True) ft ft'
 
-theorem setContent_LR {t t' : FTok} (lr : LR t t') (hf : t.fmt = t'.fmt) (c : Bytes) :
-    LR (t.setContent c) (t'.setContent c) ∧ (t.setContent c).fmt = (t'.setContent c).fmt := by
+theorem setContent_LR {fr : Prop} {t t' : FTok} (lr : LR fr t t') (hf : FmtEq fr t.fmt t'.fmt) (c : Bytes) :
+    LR fr (t.setContent c) (t'.setContent c) ∧ FmtEq fr (t.setContent c).fmt (t'.setContent c).fmt := by
   unfold FTok.setContent
   by_cases hi : t.fmt.ignored = true
-  · have := lr.ignEq hi; subst this
-    rw [if_pos hi]
-    exact ⟨LR.refl _, rfl⟩
+  · have hi' : t'.fmt.ignored = true := by rw [← lr.ign]; exact hi
+    rw [if_pos hi, if_pos hi']
+    exact ⟨lr, hf⟩
   · have hi' : ¬ t'.fmt.ignored = true := by rw [← lr.ign]; exact hi
     rw [if_neg hi, if_neg hi']
     refine ⟨⟨lr.kind, rfl, lr.ign, lr.sp, lr.nl, fun h => absurd h hi⟩, hf⟩
 
-theorem mlsLine_relT (S : Settings) (toks : List Nat) (ft ft' ft1 : FT) (ch : Bool)
-    (h : RelT ft ft') (h1 : mlsLine S toks ft = some (ft1, ch)) :
-    ∃ ft1', mlsLine S toks ft' = some (ft1', ch) ∧ RelT ft1 ft1' := by
+theorem mlsLine_relT (S : Settings) (F : Nat → Prop) (toks : List Nat) (ft ft' ft1 : FT) (ch : Bool)
+    (h : RelT F ft ft') (h1 : mlsLine S toks ft = some (ft1, ch)) :
+    ∃ ft1', mlsLine S toks ft' = some (ft1', ch) ∧ RelT F ft1 ft1' := by
   induction toks generalizing ft ft' ft1 ch with
   | nil =>
     unfold mlsLine at h1 ⊢
@@ -317,9 +373,9 @@ theorem mlsLine_relT (S : Settings) (toks : List Nat) (ft ft' ft1 : FT) (ch : Bo
       simp only at h1
       have hr : (if (!t.fmt.ignored && isMlsKind t.tok.kind) = true then mlsRewrite S t.tok.content t.fmt.ind t.fmt.cont else none) =
           (if (!t'.fmt.ignored && isMlsKind t'.tok.kind) = true then mlsRewrite S t'.tok.content t'.fmt.ind t'.fmt.cont else none) := by
-        rw [lr.kind, lr.content, hf]
+        rw [lr.kind, lr.content, hf.ign, hf.ind, hf.cont]
       rw [← hr]
-      have key : ∀ r : Option Bytes, RelT (match r with | some c => ft.set idx (t.setContent c) | none => ft)
+      have key : ∀ r : Option Bytes, RelT F (match r with | some c => ft.set idx (t.setContent c) | none => ft)
           (match r with | some c => ft'.set idx (t'.setContent c) | none => ft') := by
         intro r
         cases r with
@@ -352,9 +408,9 @@ theorem mlsLine_relT (S : Settings) (toks : List Nat) (ft ft' ft1 : FT) (ch : Bo
         erw [h2']
         simp
 
-theorem mlsPass1_relT (S : Settings) (lines : List Line) (ls : List (Line × Nat)) (ft ft' ft1 : FT) (acc out : List Nat)
-    (h : RelT ft ft') (h1 : mlsPass1 S lines ls ft acc = some (ft1, out)) :
-    ∃ ft1', mlsPass1 S lines ls ft' acc = some (ft1', out) ∧ RelT ft1 ft1' := by
+theorem mlsPass1_relT (S : Settings) (F : Nat → Prop) (lines : List Line) (ls : List (Line × Nat)) (ft ft' ft1 : FT)
+    (acc out : List Nat) (h : RelT F ft ft') (h1 : mlsPass1 S lines ls ft acc = some (ft1, out)) :
+    ∃ ft1', mlsPass1 S lines ls ft' acc = some (ft1', out) ∧ RelT F ft1 ft1' := by
   induction ls generalizing ft ft' acc with
   | nil =>
     unfold mlsPass1 at h1 ⊢
@@ -366,7 +422,7 @@ theorem mlsPass1_relT (S : Settings) (lines : List Line) (ls : List (Line × Nat
     split at h1
     · simp at h1
     · rename_i fta changed ha
-      obtain ⟨fta', ha', ra⟩ := mlsLine_relT S l.tokens ft ft' fta changed h ha
+      obtain ⟨fta', ha', ra⟩ := mlsLine_relT S F l.tokens ft ft' fta changed h ha
       simp only [ha']
       split at h1
       · split at h1
@@ -379,9 +435,9 @@ theorem mlsPass1_relT (S : Settings) (lines : List Line) (ls : List (Line × Nat
         rw [if_neg hc]
         exact ih fta fta' _ ra h1
 
-theorem mlsPass2_relT (S : Settings) (ls : List Line) (ft ft' ft1 : FT)
-    (h : RelT ft ft') (h1 : mlsPass2 S ls ft = some ft1) :
-    ∃ ft1', mlsPass2 S ls ft' = some ft1' ∧ RelT ft1 ft1' := by
+theorem mlsPass2_relT (S : Settings) (F : Nat → Prop) (ls : List Line) (ft ft' ft1 : FT)
+    (h : RelT F ft ft') (h1 : mlsPass2 S ls ft = some ft1) :
+    ∃ ft1', mlsPass2 S ls ft' = some ft1' ∧ RelT F ft1 ft1' := by
   induction ls generalizing ft ft' with
   | nil =>
     unfold mlsPass2 at h1 ⊢
@@ -392,11 +448,15 @@ theorem mlsPass2_relT (S : Settings) (ls : List Line) (ft ft' ft1 : FT)
     split at h1
     · simp at h1
     · rename_i fta ch ha
-      obtain ⟨fta', ha', ra⟩ := mlsLine_relT S l.tokens ft ft' fta ch h ha
+      obtain ⟨fta', ha', ra⟩ := mlsLine_relT S F l.tokens ft ft' fta ch h ha
       simp only [ha']
       exact ih fta fta' ra h1
 
-theorem zero_relT (ft ft' : FT) (h : RelT ft ft') : RelT (zeroLineStartSpaces ft) (zeroLineStartSpaces ft') := by
+/-- the removal of the spaces at line starts: a free token that starts a line loses its spaces in both states, so
+    when every free token starts a line the two results agree in every counter -/
+theorem zero_relT (F : Nat → Prop) (ft ft' : FT) (h : RelT F ft ft')
+    (hfree : ∀ j t, ft[j]? = some t → F j → t.fmt.nl > 0) :
+    RelT (fun _ => False) (zeroLineStartSpaces ft) (zeroLineStartSpaces ft') := by
   unfold zeroLineStartSpaces
   refine ⟨by simp [h.1], ?_⟩
   intro j u u' hu hu'
@@ -409,29 +469,36 @@ theorem zero_relT (ft ft' : FT) (h : RelT ft ft') : RelT (zeroLineStartSpaces ft
     rw [hj] at hu; rw [ht'] at hu'
     simp at hu hu'
     subst hu; subst hu'
-    have hn' : t'.fmt.nl = t.fmt.nl := by rw [hf]
+    have hn' : t'.fmt.nl = t.fmt.nl := hf.nl.symm
     by_cases hn : t.fmt.nl > 0
     · have hn2 : t'.fmt.nl > 0 := by omega
       simp only [hn, hn2, if_true]
-      refine ⟨⟨lr.kind, lr.content, lr.ign, rfl, lr.nl, ?_⟩, fun _ => ?_⟩
-      · intro hi
-        have := lr.ignEq hi; subst this; rfl
-      · show ({ t.fmt with sp := 0 } : FmtData) = { t'.fmt with sp := 0 }
-        rw [hf]
+      refine ⟨⟨lr.kind, lr.content, lr.ign, Or.inr rfl, lr.nl, ?_⟩, fun _ => ⟨hf.ign, hf.nl, hf.ind, hf.cont, Or.inr rfl⟩⟩
+      intro hi
+      exact ⟨(lr.ignEq hi).1, ⟨hf.ign, hf.nl, hf.ind, hf.cont, Or.inr rfl⟩⟩
     · have hn2 : ¬ t'.fmt.nl > 0 := by omega
       simp only [hn, hn2, if_false]
-      exact ⟨lr, fun _ => hf⟩
+      have hsp : t.fmt.sp = t'.fmt.sp := by
+        rcases hf.sp with hfr | he
+        · exact absurd (hfree j t hj hfr) hn
+        · exact he
+      exact ⟨⟨lr.kind, lr.content, lr.ign, Or.inr hsp, lr.nl, fun hi => ⟨(lr.ignEq hi).1, ⟨hf.ign, hf.nl, hf.ind, hf.cont, Or.inr hsp⟩⟩⟩,
+        fun _ => ⟨hf.ign, hf.nl, hf.ind, hf.cont, Or.inr hsp⟩⟩
 
-theorem gapOf_rel (S : Settings) (t t' : FTok) (mb : Bool) (lr : LR t t') (hf : t.fmt = t'.fmt) :
+theorem gapOf_rel (S : Settings) (t t' : FTok) (mb : Bool) (lr : LR False t t') (hf : t.fmt = t'.fmt) :
     gapOf S t mb = gapOf S t' mb := by
   by_cases hi : t.fmt.ignored = true
-  · have := lr.ignEq hi; subst this; rfl
+  · have h1 := (lr.ignEq hi).1
+    cases t; cases t'
+    simp only at h1 hf
+    subst h1; subst hf; rfl
   · have hi' : ¬ t'.fmt.ignored = true := by rw [← lr.ign]; exact hi
     have e1 : t.fmt.ignored = false := by simpa using hi
     have e2 : t'.fmt.ignored = false := by simpa using hi'
-    simp [gapOf, e1, e2, lr.kind, hf]
+    simp [gapOf, e2, lr.kind, hf]
 
-theorem reconGo_relT (S : Settings) (mb : Bool) (ft ft' : FT) (h : RelT ft ft') : reconGo S mb ft = reconGo S mb ft' := by
+theorem reconGo_relT (S : Settings) (mb : Bool) (ft ft' : FT) (h : RelT (fun _ => False) ft ft') :
+    reconGo S mb ft = reconGo S mb ft' := by
   induction ft generalizing ft' mb with
   | nil =>
     cases ft' with
@@ -442,26 +509,35 @@ theorem reconGo_relT (S : Settings) (mb : Bool) (ft ft' : FT) (h : RelT ft ft') 
     | nil => have := h.1; simp at this
     | cons t' r' =>
       obtain ⟨lr, hf⟩ := h.2 0 t t' rfl rfl
-      have hf := hf trivial
-      have hr : RelT r r' := ⟨by have := h.1; simpa using this, fun j u u' hu hu' => h.2 (j + 1) u u' (by simpa using hu) (by simpa using hu')⟩
+      have hf := (hf trivial).eq
+      have hr : RelT (fun _ => False) r r' := ⟨by have := h.1; simpa using this, fun j u u' hu hu' => h.2 (j + 1) u u' (by simpa using hu) (by simpa using hu')⟩
       unfold reconGo
       rw [gapOf_rel S t t' mb lr hf, lr.content, lr.kind, ih _ r' hr]
 
 /-! ### the whole stage -/
 
-theorem wrapStageFull_layout (cfg : Config) (lines : List Line) (W0 : Nat → Bool) (ft ft' ftz : FT)
+theorem wrapStageFull_layout (cfg : Config) (lines : List Line) (F : Nat → Prop) (W0 : Nat → Bool) (ft ft' ftz : FT)
     (sols : List (Nat × Nat × Sol))
-    (h : RelW (fun j => W0 j = true) ft ft')
+    (h : RelW F (fun j => W0 j = true) ft ft') (hF : FreeOk F ft)
     (h1 : wrapStageFull cfg lines ft = some (ftz, sols))
-    (hall : allWritten lines W0 ft.length sols = true) :
-    ∃ ftz', wrapStageFull cfg lines ft' = some (ftz', sols) ∧ RelT ftz ftz' := by
+    (hall : allWritten lines W0 ft.length sols = true)
+    (hfree : ∀ j t, ftz[j]? = some t → F j → t.fmt.nl > 0) :
+    ∃ ftz', wrapStageFull cfg lines ft' = some (ftz', sols) ∧ RelT (fun _ => False) ftz ftz' := by
+  -- the removal of spaces keeps the line-break counters, so `hfree` speaks about the state before it too
+  have hz : ∀ (x : FT) (j : Nat) (t : FTok), x[j]? = some t →
+      ∃ u, (zeroLineStartSpaces x)[j]? = some u ∧ u.fmt.nl = t.fmt.nl := by
+    intro x j t hx
+    unfold zeroLineStartSpaces
+    simp only [List.getElem?_map, hx, Option.map_some]
+    refine ⟨_, rfl, ?_⟩
+    split <;> rfl
   unfold wrapStageFull at h1 ⊢
   simp only at h1 ⊢
-  rw [← searchInit_congr h]
+  rw [← searchInit_congr h hF]
   split at h1
   · simp at h1
   · rename_i fta sta solsa ha
-    obtain ⟨fta', news, ha', hsols, hph, ra⟩ := applyLinesS_relW 0 lines _ _ sta _ ft ft' fta [] solsa h ha
+    obtain ⟨fta', news, ha', hsols, hph, ra⟩ := applyLinesS_relW 0 lines _ _ sta F _ ft ft' fta [] solsa h ha
     simp only [ha']
     simp only [List.nil_append] at hsols
     subst hsols
@@ -480,16 +556,15 @@ theorem wrapStageFull_layout (cfg : Config) (lines : List Line) (W0 : Nat → Bo
             · simp at h1
             · simp at h1
               obtain ⟨_, rfl⟩ := h1
-              -- solsc = solsa ++ news2 with phase 1
-              have := applyLinesS_relW 1 lines _ _ stc _ ftb ftb ftc solsa solsc
-                (⟨rfl, fun j t t' a b => by rw [a] at b; cases b; exact ⟨LR.refl _, fun _ => rfl⟩⟩ : RelW (fun _ => True) ftb ftb) hc
+              have := applyLinesS_relW 1 lines _ _ stc (fun _ => False) _ ftb ftb ftc solsa solsc
+                (⟨rfl, fun j t t' a b => by rw [a] at b; cases b; exact ⟨LR.refl _ _, fun _ => FmtEq.refl _ _⟩⟩ : RelW (fun _ => False) (fun _ => True) ftb ftb) hc
               obtain ⟨_, news2, _, hs2, hp2, _⟩ := this
               rw [hs2] at hx
               rcases List.mem_append.1 hx with hx | hx
               · exact hx
               · have := hp2 x hx; omega
     have len1 : fta.length = ft.length := (All2.length_eq (applyLinesS_rel cfg.settings _ _ _ _ _ _ _ _ _ ha)).symm
-    have rT : RelT fta fta' := by
+    have rT : RelT F fta fta' := by
       refine ⟨ra.1, fun j t t' a b => ⟨(ra.2 j t t' a b).1, fun _ => (ra.2 j t t' a b).2 ?_⟩⟩
       have hj : j < ft.length := by
         rw [← len1]
@@ -507,25 +582,31 @@ theorem wrapStageFull_layout (cfg : Config) (lines : List Line) (W0 : Nat → Bo
     · rename_i hmls
       simp at h1; obtain ⟨rfl, rfl⟩ := h1
       rw [if_pos hmls]
-      exact ⟨_, rfl, zero_relT _ _ rT⟩
+      refine ⟨_, rfl, zero_relT F _ _ rT ?_⟩
+      intro j t ht hf
+      obtain ⟨u, hu, hn⟩ := hz fta j t ht
+      rw [← hn]; exact hfree j u hu hf
     · rename_i hmls
       rw [if_neg hmls]
       split at h1
       · simp at h1
       · rename_i ftb toReflow hb
-        obtain ⟨ftb', hb', rb⟩ := mlsPass1_relT cfg.settings lines _ fta fta' ftb [] toReflow rT hb
+        obtain ⟨ftb', hb', rb⟩ := mlsPass1_relT cfg.settings F lines _ fta fta' ftb [] toReflow rT hb
         simp only [hb']
         split at h1
         · simp at h1
         · rename_i ftc stc solsc hc
-          obtain ⟨ftc', news2, hc', _, _, rc⟩ := applyLinesS_relW 1 lines _ _ stc _ ftb ftb' ftc solsa solsc rb hc
+          obtain ⟨ftc', news2, hc', _, _, rc⟩ := applyLinesS_relW 1 lines _ _ stc F _ ftb ftb' ftc solsa solsc rb hc
           simp only [hc']
           split at h1
           · simp at h1
           · rename_i ftd hd
-            obtain ⟨ftd', hd', rd⟩ := mlsPass2_relT cfg.settings lines ftc ftc' ftd (rc.mono (fun _ _ => Or.inl trivial)) hd
+            obtain ⟨ftd', hd', rd⟩ := mlsPass2_relT cfg.settings F lines ftc ftc' ftd (rc.mono (fun _ _ => Or.inl trivial)) hd
             simp only [hd']
             simp at h1; obtain ⟨rfl, rfl⟩ := h1
-            exact ⟨_, rfl, zero_relT _ _ rd⟩
+            refine ⟨_, rfl, zero_relT F _ _ rd ?_⟩
+            intro j t ht hf
+            obtain ⟨u, hu, hn⟩ := hz ftd j t ht
+            rw [← hn]; exact hfree j u hu hf
 
 end Pasfmt
